@@ -153,6 +153,25 @@ func (r *Run) Rule(id, text string, body func()) {
 	body()
 }
 
+// Guarded runs a whole property function; a panic outside any rule (an anchor resolved while the rules are being
+// set up, a nil dereference in shared preparation code) becomes a failing obligation instead of a crash.
+func (r *Run) Guarded(body func()) {
+	defer func() {
+		if x := recover(); x != nil {
+			r.curRule, r.curText = "setup", "the anchors every rule of the property relies on resolve, and the shared preparation runs"
+			switch e := x.(type) {
+			case anchorMissing:
+				r.add("anchor-missing", "anchor:"+e.what, "-", "the anchor "+e.what+" does not resolve in the current tree", nil)
+			case undecidedPanic:
+				r.add("undecided", e.construct, e.pos, e.detail, nil)
+			default:
+				r.add("undecided", "checker-panic", "-", fmt.Sprintf("checker panic: %v\n%s", x, debug.Stack()), nil)
+			}
+		}
+	}()
+	body()
+}
+
 type undecidedPanic struct{ construct, pos, detail string }
 
 // Bail aborts the current rule as undecided.
